@@ -1,6 +1,8 @@
 mod builtins;
 mod runtime;
 
+#[cfg(rip_verif)]
+pub use builtins::verif_capture_stream;
 pub use builtins::{register_builtin_tools, BuiltinToolConfig};
 pub use runtime::{
     CheckpointHook, CheckpointRecord, CheckpointRequest, CheckpointRewindRecord, ToolHandler,
